@@ -225,7 +225,11 @@ pub fn response_keys(req_key: &[u8; 16], req_iv: &[u8; 16]) -> ([u8; 16], [u8; 1
 }
 
 pub fn encode_response_header(resp_key: &[u8; 16], resp_iv: &[u8; 16], v: u8, opt: u8) -> Vec<u8> {
-    let hdr = [v, opt, 0, 0];
+    encode_response_header_raw(resp_key, resp_iv, &[v, opt, 0, 0])
+}
+
+/// A sealed response header with arbitrary content (malformed responses: no authentication byte at all, ...).
+pub fn encode_response_header_raw(resp_key: &[u8; 16], resp_iv: &[u8; 16], hdr: &[u8]) -> Vec<u8> {
     let lk = kdf16(resp_key, &[b"AEAD Resp Header Len Key"]);
     let li = kdf(resp_iv, &[b"AEAD Resp Header Len IV"]);
     let hk = kdf16(resp_key, &[b"AEAD Resp Header Key"]);
